@@ -1,9 +1,15 @@
 import OnlVerif.Net.Port
+import OnlVerif.Net.Wire
+import OnlVerif.Net.TokenBucket
+import OnlVerif.Net.TwoRate
 /-!
 # Replaying FifoServer devices through their model (driver mode `fifo`)
 
 ```
-CASE <id> <kind> <config…>
+CASE <id> port <rate> <qlimit|None> <limit_bytes 0|1> <has id 0|1> [red <max_th> <min_th> <max_p> <w>]
+CASE <id> wire <loss_rate|None>
+CASE <id> tb <rate> <bucket_size> <peak|None>
+CASE <id> tworate <cir> <cbs> <pir|None> <pbs|None>
 init | tick <bits> | put <id> <flow> <size> <draw bits> | handoff | resume <x bits> <y bits> | fire | sample <0|1>
 END
 ```
@@ -66,6 +72,23 @@ def portExtra (s : FState Float (PortSt Float)) (ws : List String) : Option Stri
 
 def parseOptInt (t : String) : Option Int := if t == "None" then none else some t.toInt!
 
+def parseOptF (t : String) : Option Float := if t == "None" then none else some (fb t)
+
+def showOptF (x : Option Float) : String := match x with | some v => v.bitsStr | none => "None"
+
+def noExtra {δ : Type} (_ : FState Float δ) (_ : List String) : Option String := none
+
+/-- `Wire`: `packets_rec` -/
+def showWire (s : FState Float (WireSt Float)) : String := s!"rec={s.dev.packetsRec}"
+
+/-- `TokenBucket`: `current_bucket`, `update_time`, `packets_received`, `packets_sent` -/
+def showTb (s : FState Float (TbSt Float)) : String :=
+  s!"cb={s.dev.level.bitsStr} ut={s.dev.upd.bitsStr} rc={s.dev.received} sn={s.dev.sent}"
+
+/-- `TwoRateTokenBucket`: `current_bucket_commit`, `current_bucket_peak`, `update_time`, counters -/
+def showTr (s : FState Float (TrSt Float)) : String :=
+  s!"cc={s.dev.commit.bitsStr} cp={showOptF s.dev.peak} ut={s.dev.upd.bitsStr} rc={s.dev.received} sn={s.dev.sent}"
+
 partial def fifoLoop (h : IO.FS.Stream) : IO Unit := do
   let line ← h.getLine
   if line.isEmpty then return
@@ -78,6 +101,21 @@ partial def fifoLoop (h : IO.FS.Stream) : IO Unit := do
       | _ => none
     let cfg : PortCfg Float := { rate := fb rate, qlimit := parseOptInt ql, limitBytes := lb == "1", hasId := hid == "1", red }
     runFifo h (Port.dev cfg) showPort portExtra { now := 0, dev := { avg := 0 } }
+    fifoLoop h
+  | ["CASE", id, "wire", lr] =>
+    IO.println s!"CASE {id}"
+    let cfg : WireCfg Float := { lossRate := parseOptF lr }
+    runFifo h (Wire.dev cfg) showWire noExtra { now := 0, dev := Wire.st0 0 }
+    fifoLoop h
+  | ["CASE", id, "tb", rate, bucket, peak] =>
+    IO.println s!"CASE {id}"
+    let cfg : TbCfg Float := { rate := fb rate, bucket := fb bucket, peak := parseOptF peak }
+    runFifo h (TokenBucket.dev cfg) showTb noExtra { now := 0, dev := TokenBucket.st0 cfg }
+    fifoLoop h
+  | ["CASE", id, "tworate", cir, cbs, pir, pbs] =>
+    IO.println s!"CASE {id}"
+    let cfg : TrCfg Float := { cir := fb cir, cbs := fb cbs, pir := parseOptF pir, pbs := parseOptF pbs }
+    runFifo h (TwoRate.dev cfg) showTr noExtra { now := 0, dev := TwoRate.st0 cfg }
     fifoLoop h
   | [] => fifoLoop h
   | _ => IO.println s!"BADLINE {line.trimAscii.toString}"; fifoLoop h
